@@ -1,263 +1,462 @@
 import TabulaModel.Model.XrefNestCache
 /-!
-# C04 — the reader's caches and the limit on nested loads (repair 129dd3d)
+# C04 — the reader's caches and the limit on nested loads (129dd3d, repaired by 8b4ac6e)
 
 "The answer does not depend on the order of lookups or on what was looked up before."
-`GetObject` consults `objCache` before it counts the objects being loaded. On the chain files of
-`Model/XrefNestCache.lean`:
+`GetObject` refuses a load when 16 objects are being loaded inside each other. Since 8b4ac6e a
+hit in `objCache` or `objStmCache` is counted as the load it stands for (`objNeed`, `stmNeed`,
+`nestCached`). On the chain files of `Model/XrefNestCache.lean`, for EVERY chain length `d`:
 
 * `nested_cache_fresh_reader` — a fresh reader answers every lookup by the length of the chain
   alone: found iff the object exists and its chain fits the limit of 16 (what the cache-free
   byte-level model `getObjectB` says; `C04N.nested_loads_within_limit/_beyond_limit`);
-* `nested_cache_order_free_partial` — on every chain file whose longest chain fits the limit
-  (in particular on every file that conforms to ISO 32000-1: at most 3 nested loads), every
-  sequence of lookups and cache clears, from any sound cache contents, answers every lookup as
-  a fresh reader does;
-* `nested_cache_order_dependence_counterexample` — beyond the limit it does not: with 17 nested
-  loads, `GetObject(A 1)` is an error on a fresh reader and succeeds after `GetObject(A 2)`.
-  The full statement (`∀ d`, order-free) is FALSE for the code since 129dd3d; before it, it held
-  (no limit). Recorded in known_findings.txt (C04/nested-limit-answer-depends-on-earlier-lookups).
+* `nested_cache_order_free` — every sequence of lookups and cache clears, from any sound cache
+  contents, answers every lookup as a fresh reader does;
+* `nested_cache_answer_independent_of_earlier_lookups` — the same, said of one lookup after two
+  arbitrary histories;
+* `nested_cache_need_is_chain_length` — what the reader remembers with a cached object is the
+  number of nested loads a fresh reader needs for it;
+* `nested_cache_order_dependence_pinned_counterexample` — the cache rule before the repair
+  (`XrefNest.Old`): with 17 nested loads `GetObject(A 1)` was an error on a fresh reader and
+  succeeded after `GetObject(A 2)`; the repaired rule refuses both times. (known_findings.txt:
+  `fixed: property=C04 8b4ac6e`, oracle key C04/nested-limit-answer-depends-on-earlier-lookups.)
 -/
 namespace Tabula.C04NC
 open Tabula.XrefNest
 
-/-- the caches hold only objects of the file -/
+/-- the caches hold only objects of the file, each with the number of nested loads its chain
+takes (`objNeed`: the object itself included; `stmNeed`: the loads below the member) -/
 def Sound (d : Nat) (top : Bool) (st : Caches) : Prop :=
-  (∀ i ∈ st.objA, 1 ≤ i ∧ i ≤ d) ∧ (∀ i ∈ st.objS, 1 ≤ i ∧ i < d) ∧ (st.objT = true → top = true)
+  (∀ i n, st.objA.lookup i = some n → 1 ≤ i ∧ i ≤ d ∧ n = d - i + 1) ∧
+  (∀ i n, st.objB.lookup i = some n → 1 ≤ i ∧ i < d ∧ n = d - i + 1) ∧
+  (∀ i n, st.objS.lookup i = some n → 1 ≤ i ∧ i < d ∧ n = d - i + 1) ∧
+  (∀ i n, st.stm.lookup i = some n → 1 ≤ i ∧ i < d ∧ n = d - i) ∧
+  (∀ n, st.objT = some n → top = true ∧ 1 ≤ d ∧ n = d + 1)
 
-theorem sound_empty (d : Nat) (top : Bool) : Sound d top ({} : Caches) := by
-  refine ⟨?_, ?_, ?_⟩
-  · intro i h; simp at h
-  · intro i h; simp at h
-  · intro h; simp at h
+theorem sound_empty (d : Nat) (top : Bool) (r : Nat) : Sound d top ({ reach := r } : Caches) := by
+  refine ⟨?_, ?_, ?_, ?_, ?_⟩ <;> intros <;> simp_all [List.lookup]
 
-theorem getA_sound (d : Nat) (top : Bool) : ∀ (fuel i L : Nat) (st : Caches), Sound d top st →
-    Sound d top (getA d fuel i L st).2 := by
+/-- `reach` is no part of soundness -/
+theorem sound_reach {d : Nat} {top : Bool} {st : Caches} (h : Sound d top st) (r : Nat) :
+    Sound d top { st with reach := r } := h
+
+theorem lookup_cons_some {k v : Nat} {l : List (Nat × Nat)} {i n : Nat}
+    (h : ((k, v) :: l).lookup i = some n) : (i = k ∧ n = v) ∨ l.lookup i = some n := by
+  simp only [List.lookup] at h
+  split at h
+  · rename_i heq
+    left
+    exact ⟨by simpa using heq, by simpa using h.symm⟩
+  · right; exact h
+
+theorem nestCached_spec {d : Nat} {top : Bool} {st : Caches} (h : Sound d top st) (need L : Nat) :
+    (nestCached need L st).1 = decide (L + need ≤ maxNestedLoads) ∧
+      Sound d top (nestCached need L st).2 ∧
+      ((nestCached need L st).1 = true → (nestCached need L st).2.reach = max st.reach (L + need)) := by
+  unfold nestCached
+  by_cases hc : maxNestedLoads < L + need
+  · simp only [hc, if_true]
+    refine ⟨?_, h, fun hf => by cases hf⟩
+    symm; simp only [decide_eq_false_iff_not]; omega
+  · simp only [hc, if_false]
+    refine ⟨?_, h, ?_⟩
+    · symm; simp only [decide_eq_true_eq]; omega
+    · intro _; first | rfl | trivial
+
+/-- what a `GetObject` of an object whose chain takes `c` loads must do, called with `L` objects
+being loaded: found iff `L + c` fits, caches sound afterwards, and on success `reach` raised to
+`L + c` -/
+def Answers (d : Nat) (top : Bool) (c L : Nat) (st : Caches) (r : Bool × Caches) : Prop :=
+  r.1 = decide (L + c ≤ maxNestedLoads) ∧ Sound d top r.2 ∧
+    (r.1 = true → r.2.reach = max st.reach (L + c))
+
+/-- `getObjectStream(S i)`: given that the nested `GetObject(A (i+1))` answers by its chain
+(`d - i` loads), opening `S i` does, cached or not -/
+theorem openStm_spec {d : Nat} {top : Bool} (i L : Nat) (st : Caches) (nested : Caches → Bool × Caches)
+    (h : Sound d top st) (h1 : 1 ≤ i) (h2 : i < d)
+    (hn : ∀ st', Sound d top st' → Answers d top (d - i) L st' (nested st')) :
+    Answers d top (d - i) L st (openStm i L st nested) := by
+  unfold openStm
+  cases hl : st.stm.lookup i with
+  | some need =>
+    simp only
+    have := (h.2.2.2.1 i need hl).2.2
+    subst this
+    exact nestCached_spec h _ _
+  | none =>
+    simp only
+    obtain ⟨ha, hs, hr⟩ := hn { st with reach := L } (sound_reach h L)
+    cases hb : (nested { st with reach := L }).1 with
+    | false =>
+      simp only [Bool.false_eq_true, if_false]
+      rw [hb] at ha
+      exact ⟨ha, hs, fun hf => by cases hf⟩
+    | true =>
+      simp only [if_true]
+      rw [hb] at ha
+      have hreach := hr hb
+      simp only at hreach
+      refine ⟨ha, ?_, ?_⟩
+      · obtain ⟨sA, sB, sS, sM, sT⟩ := hs
+        refine ⟨sA, sB, sS, ?_, sT⟩
+        intro j n hj
+        rcases lookup_cons_some hj with ⟨rfl, rfl⟩ | hj
+        · refine ⟨h1, h2, ?_⟩
+          rw [hreach]; omega
+        · exact sM j n hj
+      · intro _
+        simp only [restoreReach]
+        rw [hreach]; omega
+
+/-- the chain of `A i` / `B i` takes `d - i + 1` loads -/
+theorem getM_spec (d : Nat) (top : Bool) : ∀ (fuel : Nat) (b : Bool) (i L : Nat) (st : Caches),
+    Sound d top st → d - i + 1 ≤ fuel →
+    (memberExists d b i = true → Answers d top (d - i + 1) L st (getM d fuel b i L st)) ∧
+    (memberExists d b i = false → getM d fuel b i L st = (false, st)) := by
   intro fuel
   induction fuel with
-  | zero => intro i L st h; exact h
+  | zero => intro b i L st _ hf; omega
   | succ fuel ih =>
-    intro i L st h
-    simp only [getA]
-    split
-    · exact h
-    · split
-      · exact h
-      · rename_i hin
-        have hi : 1 ≤ i ∧ i ≤ d := by omega
-        have hadd : ∀ st' : Caches, Sound d top st' → ∀ stm', Sound d top { st' with stm := stm', objA := i :: st'.objA } := by
-          intro st' h' stm'
-          refine ⟨?_, h'.2.1, h'.2.2⟩
-          intro j hj
-          simp only [List.mem_cons] at hj
-          rcases hj with rfl | hj
-          · exact hi
-          · exact h'.1 j hj
-        split
-        · exact h
-        · split
-          · exact hadd st h st.stm
-          · split
-            · exact hadd st h st.stm
-            · have := ih (i + 1) (L + 1) st h
-              split
-              · rename_i st' heq
-                rw [heq] at this
-                exact hadd st' this _
-              · rename_i st' heq
-                rw [heq] at this
-                exact this
-
-/-- a chain that fits the limit is answered whatever the caches hold -/
-theorem getA_within (d : Nat) : ∀ (fuel i L : Nat) (st : Caches), 1 ≤ i → i ≤ d →
-    L + (d - i + 1) ≤ maxNestedLoads → d - i + 1 ≤ fuel → (getA d fuel i L st).1 = true := by
-  intro fuel
-  induction fuel with
-  | zero => intro i L st _ _ _ hf; omega
-  | succ fuel ih =>
-    intro i L st h1 h2 hl hf
-    simp only [getA]
-    split
-    · rfl
-    · have hin : ¬ (i = 0 ∨ d < i) := by omega
-      have hlim : ¬ (maxNestedLoads ≤ L) := by omega
-      simp only [hin, hlim, if_false]
-      split
-      · rfl
-      · split
-        · rfl
-        · rename_i hne _
-          have := ih (i + 1) (L + 1) st (by omega) (by omega) (by omega) (by omega)
-          split
-          · rfl
-          · rename_i st' heq
-            rw [heq] at this
-            cases this
-
-/-- from caches that hold nothing of the chain, the answer is decided by the length of the
-chain alone, and a failed lookup leaves the caches as they were -/
-theorem getA_fresh (d : Nat) : ∀ (fuel i L : Nat) (st : Caches), 1 ≤ i → i ≤ d → d - i + 1 ≤ fuel →
-    st.objA = [] → st.stm = [] →
-    (getA d fuel i L st).1 = decide (L + (d - i + 1) ≤ maxNestedLoads) ∧
-      ((getA d fuel i L st).1 = false → (getA d fuel i L st).2 = st) := by
-  intro fuel
-  induction fuel with
-  | zero => intro i L st _ _ hf; omega
-  | succ fuel ih =>
-    intro i L st h1 h2 hf hA hS
-    simp only [getA, hA, hS, List.contains_nil, Bool.false_eq_true, if_false]
-    have hin : ¬ (i = 0 ∨ d < i) := by omega
-    simp only [hin, if_false]
-    by_cases hlim : maxNestedLoads ≤ L
-    · simp only [hlim, if_true]
-      constructor
-      · symm; simp only [decide_eq_false_iff_not]; omega
-      · simp
-    · simp only [hlim, if_false]
-      by_cases hd : i = d
-      · simp only [hd, if_true]
-        constructor
-        · symm; simp only [decide_eq_true_eq]; omega
-        · simp
-      · simp only [hd, if_false]
-        obtain ⟨ha, hb⟩ := ih (i + 1) (L + 1) st (by omega) (by omega) (by omega) hA hS
-        have e : L + 1 + (d - (i + 1) + 1) = L + (d - i + 1) := by omega
-        rw [e] at ha
-        cases hr : getA d fuel (i + 1) (L + 1) st with
-        | mk b st' =>
-          rw [hr] at ha hb
-          simp only at ha hb
-          cases b with
-          | true => exact ⟨ha, fun h => by cases h⟩
-          | false => exact ⟨ha, fun _ => hb rfl⟩
-
-/-- **nested_cache_fresh_reader** (beyond the bound the model answers what the code answers):
-on a freshly opened reader, `GetObject(A i)` is found iff `A i` exists and the `d - i + 1` loads
-of its chain fit the limit of 16 — for every chain length `d` -/
-theorem nested_cache_fresh_reader (d : Nat) (top : Bool) (i : Nat) :
-    run d top {} [.a i] = [cold d top (.a i)] := by
-  simp only [run, step, cold]
-  by_cases hi : 1 ≤ i ∧ i ≤ d
-  · have := (getA_fresh d (d + 1) i 0 {} hi.1 hi.2 (by omega) rfl rfl).1
-    rw [this]
-    congr 2
-    simp only [Nat.zero_add, decide_eq_decide]
+    intro b i L st h hf
+    have hmem : ∀ n, (st.member b).lookup i = some n → memberExists d b i = true ∧ n = d - i + 1 := by
+      intro n hn
+      cases b with
+      | false =>
+        have := h.1 i n hn
+        exact ⟨by simp only [memberExists, Bool.false_eq_true, if_false, decide_eq_true_eq]; omega, this.2.2⟩
+      | true =>
+        have := h.2.1 i n hn
+        exact ⟨by simp only [memberExists, if_true, decide_eq_true_eq]; omega, this.2.2⟩
     constructor
-    · intro h; exact ⟨hi.1, hi.2, h⟩
-    · intro h; exact h.2.2
-  · have hin : i = 0 ∨ d < i := by omega
-    have hc : decide (1 ≤ i ∧ i ≤ d ∧ d - i + 1 ≤ maxNestedLoads) = false := by
-      simp only [decide_eq_false_iff_not]; omega
-    simp [getA, hin, hc]
+    · intro hex
+      simp only [getM]
+      cases hl : (st.member b).lookup i with
+      | some need =>
+        simp only
+        have := (hmem need hl).2
+        subst this
+        exact nestCached_spec h _ _
+      | none =>
+        simp only [hex, Bool.not_true, Bool.false_eq_true, if_false]
+        by_cases hlim : maxNestedLoads ≤ L
+        · simp only [hlim, if_true]
+          refine ⟨?_, h, fun hf => by cases hf⟩
+          symm; simp only [decide_eq_false_iff_not]; omega
+        · simp only [hlim, if_false]
+          -- the load proper: a plain object, or through the object stream
+          have hload : Answers d top (d - i) (L + 1) { st with reach := L + 1 }
+              (if (!b && decide (i = d)) = true then (true, { st with reach := L + 1 })
+               else openStm i (L + 1) { st with reach := L + 1 } (getM d fuel false (i + 1) (L + 1))) := by
+            by_cases hp : (!b && decide (i = d)) = true
+            · simp only [hp, if_true]
+              have hid : i = d := by
+                simp only [Bool.and_eq_true, decide_eq_true_eq] at hp; exact hp.2
+              refine ⟨?_, sound_reach h _, fun _ => ?_⟩
+              · symm; simp only [decide_eq_true_eq]; omega
+              · simp only; omega
+            · simp only [hp]
+              have hid : 1 ≤ i ∧ i < d := by
+                cases b with
+                | false =>
+                  simp only [memberExists, Bool.false_eq_true, if_false, decide_eq_true_eq] at hex
+                  simp only [Bool.not_false, Bool.true_and, decide_eq_true_eq] at hp
+                  omega
+                | true =>
+                  simp only [memberExists, if_true, decide_eq_true_eq] at hex
+                  exact hex
+              apply openStm_spec i (L + 1) _ _ (sound_reach h _) hid.1 hid.2
+              intro st' hs'
+              have hex' : memberExists d false (i + 1) = true := by
+                simp only [memberExists, Bool.false_eq_true, if_false, decide_eq_true_eq]; omega
+              have := (ih false (i + 1) (L + 1) st' hs' (by omega)).1 hex'
+              have e : d - (i + 1) + 1 = d - i := by omega
+              rw [e] at this
+              exact this
+          generalize (if (!b && decide (i = d)) = true then (true, { st with reach := L + 1 })
+               else openStm i (L + 1) { st with reach := L + 1 } (getM d fuel false (i + 1) (L + 1))) = r at hload
+          obtain ⟨ha, hs, hr⟩ := hload
+          have e : L + 1 + (d - i) = L + (d - i + 1) := by omega
+          rw [e] at ha hr
+          cases hb : r.1 with
+          | false =>
+            simp only [Bool.false_eq_true, if_false]
+            rw [hb] at ha
+            exact ⟨ha, hs, fun hf => by cases hf⟩
+          | true =>
+            simp only [if_true]
+            rw [hb] at ha
+            have hreach := hr hb
+            simp only at hreach
+            have hid : 1 ≤ i ∧ i ≤ d ∧ (b = true → i < d) := by
+              cases b with
+              | false =>
+                simp only [memberExists, Bool.false_eq_true, if_false, decide_eq_true_eq] at hex
+                exact ⟨hex.1, hex.2, fun hf => by cases hf⟩
+              | true =>
+                simp only [memberExists, if_true, decide_eq_true_eq] at hex
+                exact ⟨hex.1, by omega, fun _ => hex.2⟩
+            refine ⟨ha, ?_, ?_⟩
+            · obtain ⟨sA, sB, sS, sM, sT⟩ := hs
+              cases b with
+              | false =>
+                refine ⟨?_, sB, sS, sM, sT⟩
+                intro j n hj
+                simp only [Caches.cacheMember, restoreReach, Bool.false_eq_true, if_false] at hj
+                rcases lookup_cons_some hj with ⟨rfl, rfl⟩ | hj
+                · refine ⟨hid.1, hid.2.1, ?_⟩
+                  rw [hreach]; omega
+                · exact sA j n hj
+              | true =>
+                refine ⟨sA, ?_, sS, sM, sT⟩
+                intro j n hj
+                simp only [Caches.cacheMember, restoreReach, if_true] at hj
+                rcases lookup_cons_some hj with ⟨rfl, rfl⟩ | hj
+                · refine ⟨hid.1, hid.2.2 rfl, ?_⟩
+                  rw [hreach]; omega
+                · exact sB j n hj
+            · intro _
+              have : (r.2.cacheMember b i (r.2.reach - (L + 1) + 1)).reach = r.2.reach := by
+                cases b <;> rfl
+              simp only [restoreReach, this]
+              rw [hreach]; omega
+    · intro hex
+      simp only [getM]
+      cases hl : (st.member b).lookup i with
+      | some need =>
+        have := (hmem need hl).1
+        rw [hex] at this; cases this
+      | none => simp only [hex, Bool.not_false, if_true]
 
-theorem step_cold (d : Nat) (top : Bool) (hd1 : 1 ≤ d) (hfit : d + (if top then 1 else 0) ≤ maxNestedLoads) (st : Caches)
-    (h : Sound d top st) (op : Op) :
+/-- **nested_cache_need_is_chain_length**: after `GetObject(A i)` from outside, from any sound
+caches, what the reader remembers with `A i` is `d - i + 1` — the nested loads a fresh reader
+needs for it (so `nestCached` refuses exactly where a load would be refused) -/
+theorem nested_cache_need_is_chain_length (d : Nat) (top : Bool) (st : Caches) (h : Sound d top st)
+    (i n : Nat) (hn : (step d top st (.a i)).2.objA.lookup i = some n) : n = d - i + 1 := by
+  simp only [step] at hn
+  by_cases hex : memberExists d false i = true
+  · exact (((getM_spec d top (d + 1) false i 0 st h (by omega)).1 hex).2.1.1 i n hn).2.2
+  · have hex' : memberExists d false i = false := by simpa using hex
+    rw [(getM_spec d top (d + 1) false i 0 st h (by omega)).2 hex'] at hn
+    exact (h.1 i n hn).2.2
+
+/-- satisfiable, beyond the limit: on 17 chained integers `A 2` is cached with need 16 -/
+example : (step 17 false {} (.a 2)).2.objA.lookup 2 = some 16 := by decide
+
+/-- one operation, from any sound caches, for every chain length: a fresh reader's answer, and
+sound caches afterwards -/
+theorem step_cold (d : Nat) (top : Bool) (st : Caches) (h : Sound d top st) (op : Op) :
     (step d top st op).1 = cold d top op ∧ Sound d top (step d top st op).2 := by
-  have hd : d ≤ maxNestedLoads := by omega
   cases op with
-  | clear => exact ⟨rfl, sound_empty d top⟩
+  | clear => exact ⟨rfl, sound_empty d top _⟩
   | a i =>
     simp only [step, cold]
-    refine ⟨?_, getA_sound d top _ _ _ st h⟩
-    by_cases hi : 1 ≤ i ∧ i ≤ d
-    · rw [getA_within d (d + 1) i 0 st hi.1 hi.2 (by omega) (by omega)]
-      congr 1; symm; simp only [decide_eq_true_eq]; omega
-    · have hin : i = 0 ∨ d < i := by omega
-      have hnc : i ∉ st.objA := by
-        intro hm
-        have := h.1 i hm
-        omega
-      have hc : decide (1 ≤ i ∧ i ≤ d ∧ d - i + 1 ≤ maxNestedLoads) = false := by
-        simp only [decide_eq_false_iff_not]; omega
-      simp [getA, hnc, hin, hc]
+    have hs := getM_spec d top (d + 1) false i 0 st h (by omega)
+    by_cases hex : memberExists d false i = true
+    · obtain ⟨ha, hsnd, _⟩ := hs.1 hex
+      refine ⟨?_, hsnd⟩
+      rw [ha]
+      simp only [memberExists, Bool.false_eq_true, if_false, decide_eq_true_eq] at hex
+      congr 1
+      simp only [decide_eq_decide]
+      constructor
+      · intro hh; exact ⟨hex.1, hex.2, by omega⟩
+      · intro hh; omega
+    · have hex' : memberExists d false i = false := by simpa using hex
+      rw [hs.2 hex']
+      refine ⟨?_, h⟩
+      simp only [memberExists, Bool.false_eq_true, if_false, decide_eq_false_iff_not] at hex'
+      congr 1; symm; simp only [decide_eq_false_iff_not]; omega
+  | b i =>
+    simp only [step, cold]
+    have hs := getM_spec d top (d + 1) true i 0 st h (by omega)
+    by_cases hex : memberExists d true i = true
+    · obtain ⟨ha, hsnd, _⟩ := hs.1 hex
+      refine ⟨?_, hsnd⟩
+      rw [ha]
+      simp only [memberExists, if_true, decide_eq_true_eq] at hex
+      congr 1
+      simp only [decide_eq_decide]
+      constructor
+      · intro hh; exact ⟨hex.1, hex.2, by omega⟩
+      · intro hh; omega
+    · have hex' : memberExists d true i = false := by simpa using hex
+      rw [hs.2 hex']
+      refine ⟨?_, h⟩
+      simp only [memberExists, if_true, decide_eq_false_iff_not] at hex'
+      congr 1; symm; simp only [decide_eq_false_iff_not]; omega
   | s i =>
     simp only [step, cold, getS]
-    by_cases hc : st.objS.contains i = true
-    · have := h.2.1 i (by simpa using hc)
-      simp only [hc, if_true]
-      refine ⟨?_, h⟩
-      congr 1; symm; simp only [decide_eq_true_eq]; omega
-    · simp only [hc, Bool.false_eq_true, if_false]
+    cases hl : st.objS.lookup i with
+    | some need =>
+      simp only
+      obtain ⟨h1, h2, h3⟩ := h.2.2.1 i need hl
+      obtain ⟨ha, hsnd, _⟩ := nestCached_spec h need 0
+      refine ⟨?_, hsnd⟩
+      rw [ha]
+      congr 1
+      simp only [decide_eq_decide]
+      constructor
+      · intro hh; exact ⟨h1, h2, by omega⟩
+      · intro hh; omega
+    | none =>
+      simp only
       by_cases hin : i = 0 ∨ d ≤ i
       · simp only [hin, if_true]
         refine ⟨?_, h⟩
         congr 1; symm; simp only [decide_eq_false_iff_not]; omega
       · simp only [hin, if_false]
-        have hw := getA_within d (d + 1) (i + 1) 1 st (by omega) (by omega) (by omega) (by omega)
-        have hs := getA_sound d top (d + 1) (i + 1) 1 st h
-        cases hr : getA d (d + 1) (i + 1) 1 st with
-        | mk b st' =>
-          rw [hr] at hw hs
-          simp only at hw
-          subst hw
-          simp only
-          refine ⟨?_, hs.1, ?_, hs.2.2⟩
+        have hex : memberExists d false (i + 1) = true := by
+          simp only [memberExists, Bool.false_eq_true, if_false, decide_eq_true_eq]; omega
+        obtain ⟨ha, hsnd, hr⟩ := (getM_spec d top (d + 1) false (i + 1) 1 { st with reach := 1 }
+          (sound_reach h 1) (by omega)).1 hex
+        generalize getM d (d + 1) false (i + 1) 1 { st with reach := 1 } = r at ha hsnd hr
+        cases hb : r.1 with
+        | false =>
+          simp only [Bool.false_eq_true, if_false]
+          rw [hb] at ha
+          refine ⟨?_, hsnd⟩
+          congr 1
+          have := ha
+          simp only [Bool.false_eq, decide_eq_false_iff_not] at this
+          symm; simp only [decide_eq_false_iff_not]; omega
+        | true =>
+          simp only [if_true]
+          rw [hb] at ha
+          have hreach := hr hb
+          simp only at hreach
+          have hfit := ha
+          simp only [Bool.true_eq, decide_eq_true_eq] at hfit
+          refine ⟨?_, ?_⟩
           · congr 1; symm; simp only [decide_eq_true_eq]; omega
-          · intro j hj
-            simp only [List.mem_cons] at hj
-            rcases hj with rfl | hj
-            · omega
-            · exact hs.2.1 j hj
+          · obtain ⟨sA, sB, sS, sM, sT⟩ := hsnd
+            refine ⟨sA, sB, ?_, sM, sT⟩
+            intro j n hj
+            simp only [restoreReach] at hj
+            rcases lookup_cons_some hj with ⟨rfl, rfl⟩ | hj
+            · refine ⟨by omega, by omega, ?_⟩
+              rw [hreach]; omega
+            · exact sS j n hj
   | t =>
     simp only [step, cold, getT]
-    by_cases hc : st.objT = true
-    · have ht := h.2.2 hc
-      subst ht
-      simp only [hc, if_true, Bool.true_and]
-      refine ⟨?_, h⟩
-      congr 1; symm; simp only [decide_eq_true_eq]
-      simp only [if_true] at hfit
-      omega
-    · simp only [hc, Bool.false_eq_true, if_false]
+    have hs1 := sound_reach h 1
+    have hspec := getM_spec d top (d + 1) false 1 1 { st with reach := 1 } hs1 (by omega)
+    have hr1 : ({ st with reach := 1 } : Caches).reach = 1 := rfl
+    generalize ({ st with reach := 1 } : Caches) = st1 at hs1 hspec hr1 ⊢
+    cases hl : st.objT with
+    | some need =>
+      simp only
+      obtain ⟨h1, h2, h3⟩ := h.2.2.2.2 need hl
+      obtain ⟨ha, hsnd, _⟩ := nestCached_spec h need 0
+      refine ⟨?_, hsnd⟩
+      rw [ha, h1]
+      simp only [Bool.true_and]
+      congr 1
+      simp only [decide_eq_decide]
+      constructor
+      · intro hh; exact ⟨h2, by omega⟩
+      · intro hh; omega
+    | none =>
+      simp only
       cases top with
       | false => exact ⟨rfl, h⟩
       | true =>
         simp only [Bool.not_true, Bool.false_eq_true, if_false, Bool.true_and]
-        simp only [if_true] at hfit
-        have hw := getA_within d (d + 1) 1 1 st (by omega) hd1 (by omega) (by omega)
-        have hs := getA_sound d true (d + 1) 1 1 st h
-        cases hr : getA d (d + 1) 1 1 st with
-        | mk b st' =>
-          rw [hr] at hw hs
-          simp only at hw
-          subst hw
-          simp only
-          refine ⟨?_, hs.1, hs.2.1, fun _ => rfl⟩
-          congr 1; symm; simp only [decide_eq_true_eq]; omega
+        by_cases hd : 1 ≤ d
+        · have hex : memberExists d false 1 = true := by
+            simp only [memberExists, Bool.false_eq_true, if_false, decide_eq_true_eq]; omega
+          obtain ⟨ha, hsnd, hr⟩ := hspec.1 hex
+          rw [hr1] at hr
+          generalize getM d (d + 1) false 1 1 st1 = r at ha hsnd hr
+          cases hb : r.1 with
+          | false =>
+            simp only [Bool.false_eq_true, if_false]
+            rw [hb] at ha
+            refine ⟨?_, hsnd⟩
+            congr 1
+            have := ha
+            simp only [Bool.false_eq, decide_eq_false_iff_not] at this
+            symm; simp only [decide_eq_false_iff_not]; omega
+          | true =>
+            simp only [if_true]
+            rw [hb] at ha
+            have hreach := hr hb
+            have hfit := ha
+            simp only [Bool.true_eq, decide_eq_true_eq] at hfit
+            refine ⟨?_, ?_⟩
+            · congr 1; symm; simp only [decide_eq_true_eq]; omega
+            · obtain ⟨sA, sB, sS, sM, _⟩ := hsnd
+              refine ⟨sA, sB, sS, sM, ?_⟩
+              intro n hn
+              simp only [restoreReach, Option.some.injEq] at hn
+              refine ⟨rfl, hd, ?_⟩
+              rw [← hn, hreach]; omega
+        · have hex : memberExists d false 1 = false := by
+            simp only [memberExists, Bool.false_eq_true, if_false, decide_eq_false_iff_not]; omega
+          rw [hspec.2 hex]
+          simp only [Bool.false_eq_true, if_false]
+          refine ⟨?_, sound_reach hs1 _⟩
+          congr 1; symm; simp only [decide_eq_false_iff_not]; omega
 
-/-- **nested_cache_order_free_partial**: on a chain file whose longest chain of nested loads
-fits the limit (`d` integers, one more load for the stream on top), every sequence of
-`GetObject` calls and cache clears, from any sound cache contents, answers each lookup exactly
-as a freshly opened reader does. (Full statement — for every `d` — false since 129dd3d: see the
+/-- **nested_cache_order_free**: on every chain file — every chain length `d`, with or without
+the stream on top — every sequence of `GetObject` calls and cache clears, from any sound cache
+contents, answers each lookup exactly as a freshly opened reader does: by the file and the
+limit alone. (Before the repair 8b4ac6e this held only for `d + top ≤ 16`; see the pinned
 counterexample.) -/
-theorem nested_cache_order_free_partial (d : Nat) (top : Bool) (hd1 : 1 ≤ d)
-    (hfit : d + (if top then 1 else 0) ≤ 16) (st : Caches) (h : Sound d top st) (ops : List Op) :
-    run d top st ops = ops.map (cold d top) := by
+theorem nested_cache_order_free (d : Nat) (top : Bool) (st : Caches) (h : Sound d top st)
+    (ops : List Op) : run d top st ops = ops.map (cold d top) := by
   induction ops generalizing st with
   | nil => rfl
   | cons op ops ih =>
-    obtain ⟨h1, h2⟩ := step_cold d top hd1 hfit st h op
+    obtain ⟨h1, h2⟩ := step_cold d top st h op
     simp only [run, List.map_cons]
     rw [h1, ih _ h2]
 
-/-- satisfiable: a conforming layout (a stream whose `/Length` is a member of an object stream
-whose `/Length` is a plain object: 3 nested loads), looked up in both orders and again -/
-example : run 2 true {} [.t, .a 2, .a 1, .s 1, .clear, .a 1, .t] =
-    [some true, some true, some true, some true, none, some true, some true] := by decide
+/-- satisfiable: caches filled by earlier lookups on a file beyond the limit are sound -/
+example : Sound 17 false (step 17 false (step 17 false {} (.b 2)).2 (.a 1)).2 :=
+  (step_cold 17 false _ (step_cold 17 false {} (sound_empty 17 false 0) (.b 2)).2 (.a 1)).2
+
+/-- **nested_cache_fresh_reader**: on a freshly opened reader, `GetObject(A i)` is found iff
+`A i` exists and the `d - i + 1` loads of its chain fit the limit of 16 — for every chain
+length `d` -/
+theorem nested_cache_fresh_reader (d : Nat) (top : Bool) (i : Nat) :
+    run d top {} [.a i] = [cold d top (.a i)] :=
+  nested_cache_order_free d top {} (sound_empty d top 0) [.a i]
+
+/-- **nested_cache_answer_independent_of_earlier_lookups**: the answer to a lookup after any
+history of lookups and clears equals its answer after any other history, on every chain file -/
+theorem nested_cache_answer_independent_of_earlier_lookups (d : Nat) (top : Bool)
+    (before before' : List Op) (op : Op) :
+    (run d top {} (before ++ [op])).getLast? = (run d top {} (before' ++ [op])).getLast? := by
+  rw [nested_cache_order_free d top {} (sound_empty d top 0),
+    nested_cache_order_free d top {} (sound_empty d top 0)]
+  simp
+
+/-- a conforming layout (a stream whose `/Length` is a member of an object stream whose
+`/Length` is a plain object: 3 nested loads), looked up in both orders and again -/
+example : run 2 true {} [.t, .a 2, .a 1, .b 1, .s 1, .clear, .b 1, .a 1, .t] =
+    [some true, some true, some true, some true, some true, none, some true, some true, some true] := by
+  decide
 
 /-- at the edge: 16 nested loads are answered from a fresh reader, 17 are not -/
 example : run 16 false {} [.a 1] = [some true] ∧ run 17 false {} [.a 1] = [some false] ∧
     run 15 true {} [.t] = [some true] ∧ run 16 true {} [.t] = [some false] := by decide
 
-/-- **nested_cache_order_dependence_counterexample**: with 17 nested loads — one more than the
-limit — the answer to `GetObject(A 1)` depends on what was looked up before: an error on a
-fresh reader, found after `GetObject(A 2)` (whose chain of 16 fits and is cached, so that
-`A 1` needs only two loads). Since 129dd3d the property's second sentence fails on such
-files; they violate ISO 32000-1 7.5.7 (the `/Length` of an object stream held in an object
-stream). -/
-theorem nested_cache_order_dependence_counterexample :
-    run 17 false {} [.a 1] = [some false] ∧
-      run 17 false {} [.a 2, .a 1] = [some true, some true] ∧
+/-- beyond the limit, warm: neither the cached far end (`A 2`) nor the cached object stream
+(`S 2`, opened through `B 2`) lets `A 1` through -/
+example : run 17 false {} [.a 2, .a 1, .clear, .b 2, .a 1, .a 2, .a 1] =
+    [some true, some false, none, some true, some false, some true, some false] := by decide
+
+/-- **nested_cache_order_dependence_pinned_counterexample**: the cache rule of 129dd3d before
+the repair (`XrefNest.Old`: `objCache` consulted before `len(r.loading)` is counted). With 17
+nested loads — one more than the limit — the answer to `GetObject(A 1)` depended on what was
+looked up before: an error on a fresh reader, found after `GetObject(A 2)` (whose chain of 16
+fits and is cached, so that `A 1` needed only two loads). The repaired rule answers the
+fresh reader's error both times. -/
+theorem nested_cache_order_dependence_pinned_counterexample :
+    Old.run 17 false {} [.a 1] = [some false] ∧
+      Old.run 17 false {} [.a 2, .a 1] = [some true, some true] ∧
+      run 17 false {} [.a 1] = [some false] ∧
+      run 17 false {} [.a 2, .a 1] = [some true, some false] ∧
       cold 17 false (.a 1) = some false := by decide
 
 end Tabula.C04NC
